@@ -204,9 +204,26 @@ Definition prop_ok (c : case) : bool :=
        | Err _ => false
        end.
 
-Definition in_open (open : list kf_class) (c : case) : bool :=
-  existsb (fun k => k (c_unit c) (c_table c)) open.
-(* `open` = the classes of the still-open entries of known_findings.json *)
-Definition holds_C15 (open : list kf_class) (c : case) : bool := prop_ok c || in_open open c.
+(* what an open known finding excuses: only its own failure mode, on its own class of tables *)
+Definition ex_kf_all_missing (c : case) : bool := match c_result c with Err TypeError => true | _ => false end.
+Definition ex_kf_negative_with_missing (c : case) : bool :=
+  match c_result c with Err AssertionError => true | _ => false end.
+Definition ex_kf_sentinel_overflow (c : case) : bool :=
+  match c_result c with Err OverflowError => true | _ => false end.
+(* beyond float64 exactness only minimality is given up (or the weights fit no numpy integer type at all):
+   the pairing must still be one-to-one, over existing pairs, with true weights, and full on a complete table *)
+Definition ex_kf_beyond_2p53 (c : case) : bool :=
+  let W := c_table c in
+  match c_result c with
+  | Err OverflowError => true
+  | OK m => validb W m && (has_null W || Nat.eqb (length m) (Nat.min (nrows W) (ncols W)))
+  | _ => false
+  end.
+
+Definition finding : Type := (kf_class * (case -> bool))%type.
+Definition excused (open : list finding) (c : case) : bool :=
+  existsb (fun k => fst k (c_unit c) (c_table c) && snd k c) open.
+(* `open` = (class, excused outcome) of the still-open entries of known_findings.json *)
+Definition holds_C15 (open : list finding) (c : case) : bool := prop_ok c || excused open c.
 (* does this case exhibit the finding of class k? *)
 Definition reproduces (k : kf_class) (c : case) : bool := k (c_unit c) (c_table c) && negb (prop_ok c).
